@@ -386,11 +386,12 @@ def mpub (conf : Conf) (s : ConnState) (b : Broker) (params : List Bytes) (rest 
           if n ≤ 0 then fatal .E_BAD_BODY s (getTopic b t)
           else if n > conf.maxBodySize then fatal .E_BAD_BODY s (getTopic b t)
           else
-            match Mpub.readMPUB conf.maxMsgSize conf.maxBodySize r with
+            -- io.LimitReader(client.Reader, bodyLen): the batch is read from the declared body only
+            match Mpub.readMPUB conf.maxMsgSize conf.maxBodySize (r.take n.toNat) with
             | .err c => fatal c s (getTopic b t)
             | .panic => panicStep s (getTopic b t)
             | .ok bodies r2 =>
-              done (some .ok) s (publish b t (toMsgs bodies)) r2 [.enq t (toMsgs bodies)]
+              done (some .ok) s (publish b t (toMsgs bodies)) (r2 ++ r.drop n.toNat) [.enq t (toMsgs bodies)]
   | _ => fatal .E_INVALID s b
 
 /-- `protocolV2.Exec` -/
